@@ -58,6 +58,14 @@ TraceCtlHeadEvent ==
     /\ CtlHeadEvent(Trace[l].root)
     /\ StateMatches
 
+\* a strategy was asked for its answer: nodes answered Trace[l].roots, the header fetches of the call succeeded
+\* or failed (ok); the root it chose must be one the consumers' rule allows given what the cache knows
+TraceUse ==
+    /\ IsEvent("Use")
+    /\ Use(Trace[l].kind, Trace[l].roots, Trace[l].ok)
+    /\ last'.root = Trace[l].root
+    /\ StateMatches
+
 TraceExecHead ==
     /\ IsEvent("ExecHead")
     /\ ExecHead
@@ -87,7 +95,7 @@ TraceAdvance ==
     /\ UNCHANGED <<chain, parent, map, ehead, heads>>
 
 TraceNext == \/ TraceReset \/ TraceBlockEvent \/ TraceLookup \/ TraceClean \/ TraceAdvance
-             \/ TraceCtlBlockEvent \/ TraceHeadEvent \/ TraceCtlHeadEvent \/ TraceExecHead
+             \/ TraceCtlBlockEvent \/ TraceHeadEvent \/ TraceCtlHeadEvent \/ TraceExecHead \/ TraceUse
 
 TraceSpec == TraceInit /\ [][TraceNext]_tvars
 
